@@ -83,6 +83,11 @@ func (f ocsfFormatter) getMatchDetails(al plugintypes.AuditLog) []*objects.Enric
 	matchDetails := []*objects.Enrichment{}
 
 	for _, match := range al.Messages() {
+		if match.Data() == nil {
+			// The record has part H but not part K: the message is only the
+			// error log line of the rule, there are no match details to report.
+			continue
+		}
 		matchData, _ := json.Marshal(match.Data())
 		matchDetails = append(matchDetails, &objects.Enrichment{
 			Data:  string(matchData),
